@@ -54,7 +54,7 @@ async function check (leaf, resps, ctx) {
   const relax = r.parseIn.ast ? X.hasMultiSubstTemplate(norm(r.parseIn.ast)) : false
   let envs = X.envVariants(code, ctx.tier)
   // quick tier: the context families (B, G, M) take the 5 most discriminating environments (the generated families H, Q, R, N, L, T: 3), C: 7, A all of them
-  if (ctx.tier !== 'thorough' && leaf.fam !== 'A') envs = envs.slice(0, leaf.fam === 'C' ? 7 : 'HQRNLT'.includes(leaf.fam) ? 3 : 5)
+  if (ctx.tier !== 'thorough' && leaf.fam !== 'A') envs = envs.slice(0, leaf.fam === 'C' ? 7 : 'HQRNLTK'.includes(leaf.fam) ? 3 : 5)
   res.nontrivial = true
   let n = 0
   for (const spec of envs) {
